@@ -28,7 +28,7 @@ def contract(**kw):
 contract(module="coco.util", qualname="getbit",
          params=dict(c="int", ii=("enum", list(range(8)))),
          requires=["0 <= c", "c <= 255", "0 <= ii", "ii <= 7"],
-         returns="(c >> ii) % 2", arbitrary_entry_streams=True,
+         returns="bitat(c, ii)", arbitrary_entry_streams=True,
          raises=[])
 contract(module="coco.util", qualname="pack",
          params=dict(a="list"),
@@ -288,3 +288,104 @@ contract(module="coco.maxtoppm", qualname="convert", tag="C19", also=["C18"],
                   dict(id="result-is-bool", post="result == True or result == False", props=["C19"])],
          lemmas=[],
          raises=[dict(id="loud", exc="*", allowed="True")])
+
+contract(module="coco.veftopng", qualname="unsquash", tag="C19",
+         params=dict(data="bytes_list", count="int", orig_len="int"),
+         # any record, truncated ones included: a normal return means every group lay inside the data actually present
+         requires=["count >= 0", "orig_len >= 0"],
+         ghost_entry="gi = 0\nc0 = 0",
+         loops={0: dict(ghost_vars=["gi", "c0"], ghost_body_start="gi = i", inv=["i >= 0", "i <= len(data)"], decreases="count - i"),
+                1: dict(ghost_before="c0 = count_byte",
+                        inv=["i == gi + 1", "i <= len(data)", "c0 >= 1", "count_byte <= c0", "implies(count_byte < c0, i < len(data))"],
+                        decreases="count_byte"),
+                2: dict(inv=["i >= gi + 1", "i <= len(data)", "j >= 0"], decreases="count_byte - j")},
+         ensures=[dict(id="truncated-record-is-loud", post="count <= len(data)"),
+                  dict(id="cut-to-nominal-length", post="len(result) <= orig_len")],
+         raises=[dict(id="loud", exc="IndexError", allowed="True")], check_termination=True)
+
+# ------------------------------------------------------------------ coco.cm3toppm
+contract(module="coco.cm3toppm", qualname="convert.dump", **DUMP)
+contract(module="coco.cm3toppm", qualname="convert.dump", tag="C19", **DUMP_LOUD)
+CM3_PARAMS = dict(input_image_stream="instream", output_image_stream="outstream")
+# Ghost image IMGZ: 160 zero bytes (the "line above" of the first line) followed by the picture, 160 bytes per line.
+CM3_PX = "forall(0, {K}, lambda t: byte16_at(out, 6*t, subseq(inp, 1, 17), IMGZ[160 + t]))"
+CM3_ZERO = "forall(0, 160, lambda j: IMGZ[j] == 0) and forall(0, 160*385, lambda t: 0 <= IMGZ[t] and IMGZ[t] <= 255)"
+CM3_GHOST_ENTRY = """
+pages = bitat(inp[0], 7) + 1
+dstart = 29 if bitat(inp[0], 0) != 0 else 272
+IMGZ = fill(seq(160 * 385), 0, 160 * 385, 0)
+gl = 0
+ls = 0
+cb = 0
+k2 = 0
+lp = 0
+gt = 0
+sel = 0
+s2 = 0
+v = 0
+"""
+CM3_GHOST_LINE = """
+ls = pos
+gl = 192 * ii + jj
+assume(pos < L)
+cb = inp[pos]
+assume(implies(cb >= 128, pos + 161 <= L))
+assume(implies(cb < 128, pos + 21 + cb <= L))
+k2 = 0
+lp = ls + 21 + cb
+"""
+# one image byte, by the definition of the line coding: selector stream 1 (20 bytes after the control byte, most
+# significant bit first) 0 = copy the raster predecessor; 1 = consult selector stream 2 (the next `control` bytes):
+# 0 = copy the byte above, 1 = take the next literal byte.  A control byte >= 128 means 160 literal bytes.
+CM3_GHOST_BYTE = """
+gt = 160 * (gl + 1) + kk
+if cb >= 128:
+    v = inp[ls + 1 + kk]
+else:
+    sel = bitat(inp[ls + 1 + kk // 8], 7 - kk % 8)
+    if sel == 0:
+        v = IMGZ[gt - 1]
+    else:
+        assume(k2 // 8 < cb)
+        s2 = bitat(inp[ls + 21 + k2 // 8], 7 - k2 % 8)
+        if s2 == 0:
+            v = IMGZ[gt - 160]
+        else:
+            assume(lp < L)
+            v = inp[lp]
+            lp = lp + 1
+        k2 = k2 + 1
+IMGZ = store(IMGZ, gt, v)
+"""
+CM3_LINBUF_LINE = "forall(0, 160, lambda j: linbuf[j] == IMGZ[160*{G} + j])"
+contract(module="coco.cm3toppm", qualname="convert", tag="C17", also=["C16", "C18"],
+         params=CM3_PARAMS, ghost_entry=CM3_GHOST_ENTRY,
+         requires=["L >= dstart"],
+         loops={
+             0: dict(ghost_vars=["IMGZ", "gl", "ls", "cb", "k2", "lp", "gt", "sel", "s2", "v"],
+                     ghost_body_start="assume(pos < L)\nassume(inp[pos] == 192)\n",
+                     inv=["len(linbuf) == 160", "len(buff1) == 20", CM3_ZERO, CM3_LINBUF_LINE.format(G="(192*ii)"),
+                          "n == 960*(192*ii)", CM3_PX.format(K="160*(192*ii)")]),
+             1: dict(ghost_vars=["IMGZ", "gl", "ls", "cb", "k2", "lp", "gt", "sel", "s2", "v"],
+                     ghost_body_start=CM3_GHOST_LINE,
+                     inv=["lines == 192", "len(linbuf) == 160", "len(buff1) == 20", CM3_ZERO, CM3_LINBUF_LINE.format(G="(192*ii + jj)"),
+                          "n == 960*(192*ii + jj)", CM3_PX.format(K="160*(192*ii + jj)")]),
+             3: dict(inv=["len(buff2) == kk", "pos == ls + 21 + kk", "forall(0, kk, lambda j: buff2[j] == inp[ls + 21 + j])",
+                          "contr == cb", "cb < 128"]),
+             4: dict(ghost_vars=["IMGZ", "k2", "lp", "gt", "sel", "s2", "v"],
+                     ghost_body_start=CM3_GHOST_BYTE,
+                     inv=["x == kk", "contr == cb", "gl == 192*ii + jj", "len(linbuf) == 160", "len(buff1) == 20", CM3_ZERO,
+                          "forall(0, kk, lambda j: linbuf[j] == IMGZ[160*(gl+1) + j])",
+                          "forall(kk, 160, lambda j: linbuf[j] == IMGZ[160*gl + j])",
+                          "implies(cb >= 128, pos == ls + 1 + kk)",
+                          "implies(cb < 128, pos == lp and k2 >= 0 and u == kk // 8 and bitu == 7 - kk % 8 and y == k2 // 8 and bity == 7 - k2 % 8)",
+                          "implies(cb < 128, len(buff2) == cb and forall(0, 20, lambda j: buff1[j] == inp[ls + 1 + j]))",
+                          "implies(cb < 128, forall(0, cb, lambda j: buff2[j] == inp[ls + 21 + j]))",
+                          "lp >= ls + 21 + cb and lp <= L or cb >= 128",
+                          "n == 6*(160*gl + kk)", CM3_PX.format(K="160*gl + kk")]),
+             5: dict(inv=[], decreases="L - pos"),
+         },
+         ensures=[dict(id="header", post="hdr == fmt('P6\\n320 {}\\n255\\n', 192*pages)", props=["C16", "C17", "C18"]),
+                  dict(id="length", post="n == 3*320*(192*pages)", props=["C16", "C17", "C18"]),
+                  dict(id="pixels", post=CM3_PX.format(K="160*(192*pages)"), props=["C16", "C17"])],
+         raises=[])
